@@ -444,7 +444,7 @@ func (c *Cond) Wait() {
 		return
 	}
 	w := &simrt.CondModel{}
-	c.waiters = append(c.waiters, w)
+	c.addWaiter(w)
 	c.L.Unlock()
 	simrt.CondWait(w, unsafe.Pointer(c))
 	c.L.Lock()
@@ -456,10 +456,7 @@ func (c *Cond) Signal() {
 		c.real.Signal()
 		return
 	}
-	if len(c.waiters) > 0 {
-		c.waiters[0].Signalled = true
-		c.waiters = c.waiters[1:]
-	}
+	c.wake(false)
 }
 
 // Broadcast wakes all waiters.
@@ -468,8 +465,22 @@ func (c *Cond) Broadcast() {
 		c.real.Broadcast()
 		return
 	}
-	for _, w := range c.waiters {
-		w.Signalled = true
+	c.wake(true)
+}
+
+// The list of waiters is the shim's own state; Signal and Broadcast may be
+// called without holding L, so the race detector must not look at it.
+//
+//go:norace
+func (c *Cond) addWaiter(w *simrt.CondModel) { c.waiters = simrt.AppendNR(c.waiters, w) }
+
+//go:norace
+func (c *Cond) wake(all bool) {
+	for len(c.waiters) > 0 {
+		c.waiters[0].Signalled = true
+		c.waiters = c.waiters[1:]
+		if !all {
+			return
+		}
 	}
-	c.waiters = nil
 }
